@@ -1606,6 +1606,58 @@ fn dump_line(cs: &Case) -> String {
     .to_string()
 }
 
+// ------------------------------------------------------------------------------------------
+// flat shapes with MIXED magnitudes: coordinates t*(dx,dy) with t = m*2^e (m small, e in -20..44) are exactly
+// collinear, but their differences round - "has this ring / triangle any area" must still be decided exactly.
+// The outline of a flat closed ring with parameters t_0..t_{n-1} has the centroid
+// sum |t_{i+1}-t_i| (t_i+t_{i+1})/2 / sum |t_{i+1}-t_i| along the line (for a triangle: the midpoint of its extremes).
+// ------------------------------------------------------------------------------------------
+pub fn check_flat_mixed(sh: &mut Shard, ts: &[(i64, i32)], d: (i64, i64), kind: u8, verbose: bool) {
+    use geo::{Centroid, Coord, Geometry, GeometryCollection, LineString, Point, Polygon, Triangle};
+    let tv: Vec<f64> = ts.iter().map(|&(m, e)| m as f64 * crate::q::pow2(e)).collect();
+    let c = |t: f64| Coord { x: t * d.0 as f64, y: t * d.1 as f64 }; // exact: |d| <= 7, m < 2^20
+    let n = tv.len();
+    let (mut num, mut den) = (0.0f64, 0.0f64);
+    for i in 0..n {
+        let (a, b) = (tv[i], tv[(i + 1) % n]);
+        let l = (b - a).abs();
+        num += l * (a + b) * 0.5;
+        den += l;
+    }
+    if den == 0.0 {
+        return;
+    }
+    let texp = num / den;
+    let tmax = tv.iter().fold(0.0f64, |a, b| a.max(b.abs()));
+    let tol = 8.0 * n as f64 * U * tmax * (d.0.abs().max(d.1.abs()) as f64);
+    let ring = || LineString::new(tv.iter().chain(std::iter::once(&tv[0])).map(|&t| c(t)).collect());
+    let (name, got): (&str, Result<Option<Point<f64>>, String>) = match kind {
+        0 if n == 3 => ("Triangle", call(|| Some(Triangle(c(tv[0]), c(tv[1]), c(tv[2])).centroid()))),
+        1 => ("Polygon", call(|| Polygon::new(ring(), vec![]).centroid())),
+        2 => ("GeometryCollection[Point,Polygon]", call(|| GeometryCollection::new_from(vec![Geometry::Point(Point::new(tmax * 3.0, 1.0)), Geometry::Polygon(Polygon::new(ring(), vec![]))]).centroid())),
+        _ => ("LineString(closed)", call(|| ring().centroid())),
+    };
+    sh.eval(1);
+    let det = |got: String| json!({"property": "C06", "check": "zero_area_outline.mixed_magnitude", "kind": "flat_mixed", "ts": ts, "d": [d.0, d.1], "shape": kind, "site": name,
+        "expected": format!("{:?} (outline centroid of the flat ring, tolerance {:e})", c(texp), tol), "got": got, "coords": format!("{:?}", tv.iter().map(|&t| c(t)).collect::<Vec<_>>())});
+    match got {
+        Ok(Some(p)) => {
+            let e = c(texp);
+            let err = (p.x() - e.x).abs().max((p.y() - e.y).abs());
+            if verbose {
+                println!("{name}: got {:?}, expected {:?}, err {:e}, tol {:e}", p, e, err, tol);
+            }
+            sh.maximum("flat_mixed.err_over_tol", err / tol);
+            if !(err <= tol) {
+                sh.violation(&format!("zero_area_outline.mixed_magnitude|{name}|-"), det(format!("{:?} (off by {:e})", p, err)));
+            }
+        }
+        Ok(None) => sh.violation(&format!("none_iff_empty|{name}|-"), det("None".into())),
+        Err(m) => sh.violation(&format!("panic|{name}|-"), det(m)),
+    }
+    sh.class(&format!("flat_mixed:{name}"));
+}
+
 pub fn run(ctx: &Ctx, sh: &mut Shard) {
     let thorough = ctx.tier == "thorough";
     let mut dump = std::env::var("GVH_C06_DUMP").ok().and_then(|f| std::fs::File::create(f).ok());
@@ -1617,6 +1669,18 @@ pub fn run(ctx: &Ctx, sh: &mut Shard) {
         ctx.mark_case(k);
         let mut r = Rng::derive(ctx.seed, ctx.shard, k);
         sh.cases += 1;
+        if k % 16 == 5 {
+            let n = r.range(3, 5) as usize;
+            let ts: Vec<(i64, i32)> = (0..n).map(|_| (r.range(-(1 << 12), 1 << 12), *r.pick(&[-20, -3, 0, 0, 7, 20, 33, 40, 44]))).collect();
+            let d = loop {
+                let d = (r.range(-7, 7), r.range(-7, 7));
+                if d != (0, 0) {
+                    break d;
+                }
+            };
+            check_flat_mixed(sh, &ts, d, r.below(4) as u8, false);
+            continue;
+        }
         // a panic in here is a harness error (geo calls are wrapped individually): stop loudly
         match guard(|| {
             let cs = gen_case(&mut r, thorough);
@@ -1637,6 +1701,11 @@ pub fn run(ctx: &Ctx, sh: &mut Shard) {
 }
 
 pub fn replay(v: &Value, sh: &mut Shard) {
+    if v["kind"].as_str() == Some("flat_mixed") {
+        let ts: Vec<(i64, i32)> = v["ts"].as_array().unwrap().iter().map(|x| (x[0].as_i64().unwrap(), x[1].as_i64().unwrap() as i32)).collect();
+        check_flat_mixed(sh, &ts, (v["d"][0].as_i64().unwrap(), v["d"][1].as_i64().unwrap()), v["shape"].as_u64().unwrap() as u8, true);
+        return;
+    }
     let g = IG::from_json(&v["g"]).expect("g");
     let lat = Lat::from_json(&v["lat"]);
     let lat_t = if v.get("lat_t").is_some() { Lat::from_json(&v["lat_t"]) } else { Lat { ox: lat.ox + 1000, oy: lat.oy - 1000, sh: lat.sh, shear: 0 } };
